@@ -43,6 +43,15 @@ type Recorder struct {
 	NotExhaustive bool
 	MaxFailures   int
 	deadline      time.Time
+	firstFail     time.Time
+}
+
+// Enough reports that the unit has found enough failures to stop exploring:
+// five of them, or ten seconds spent since the first one.
+func (r *Recorder) Enough() bool {
+	r.mu.Lock()
+	defer r.mu.Unlock()
+	return r.FailCount >= 5 || (!r.firstFail.IsZero() && time.Since(r.firstFail) > 10*time.Second)
 }
 
 func NewRecorder(unit string) *Recorder {
@@ -114,6 +123,9 @@ func (r *Recorder) Fail(f Failure) {
 	r.mu.Lock()
 	defer r.mu.Unlock()
 	r.FailCount++
+	if r.firstFail.IsZero() {
+		r.firstFail = time.Now()
+	}
 	if f.Unit == "" {
 		f.Unit = r.Unit
 	}
